@@ -59,6 +59,16 @@ func (fr *Frame) appendStructs(st *State, s, add, res *SliceV, et types.Type, nA
 		}
 		vc.assert(T{fmt.Sprintf("(forall ((q Int)) (! (=> (and (<= 0 q) (< q %s)) (= (select %s %s) (select %s %s))) :pattern ((select %s %s))))",
 			s.Len.S, nh.S, dst("q"), h.S, src("q"), nh.S, dst("q")), SBool})
+		if !known {
+			// unknown number of appended elements: element j of the result (len <= j < len+n) is element j-len of the appended slice
+			dstj := fmt.Sprintf("(%s %s j)", eaName, res.Arr.S)
+			if res.Off.S != "0" {
+				dstj = fmt.Sprintf("(%s %s (+ %s j))", eaName, res.Arr.S, res.Off.S)
+			}
+			srcj := fmt.Sprintf("(%s %s (+ %s (- j %s)))", eaName, add.Arr.S, add.Off.S, s.Len.S)
+			vc.assert(T{fmt.Sprintf("(forall ((j Int)) (! (=> (and (<= %s j) (< j (+ %s %s))) (= (select %s %s) (select %s %s))) :pattern ((select %s %s))))",
+				s.Len.S, s.Len.S, add.Len.S, nh.S, dstj, h.S, srcj, nh.S, dstj), SBool})
+		}
 		if known {
 			for i := int64(0); i < nAdd; i++ {
 				d := ea(res.Arr, Add(Add(res.Off, s.Len), I(i)))
